@@ -568,8 +568,9 @@ pub fn run_prop(
     acc.rep
 }
 
-/// Re-executes one saved case, bypassing proptest.
-pub fn replay(def: &PropDef, v: &ViolationReport, known: &KnownFile) -> (Vec<Finding>, Execution) {
+/// Re-executes one saved case, bypassing proptest.  Also returns the ids of the known findings
+/// the case matched.
+pub fn replay(def: &PropDef, v: &ViolationReport, known: &KnownFile) -> (Vec<Finding>, Execution, Vec<String>) {
     let part = def
         .parts
         .iter()
@@ -582,7 +583,10 @@ pub fn replay(def: &PropDef, v: &ViolationReport, known: &KnownFile) -> (Vec<Fin
         prop: def.id,
         failed: false,
     };
-    acc.eval(part, &v.scenario, false)
+    acc.failed = false;
+    let (f, ex) = acc.eval(part, &v.scenario, true);
+    let hits: Vec<String> = acc.rep.excluded_known.keys().cloned().collect();
+    (f, ex, hits)
 }
 
 
